@@ -466,15 +466,17 @@ class HolderGetArrayFull(Contract):
     name = f"{HOLDER}.get_array"
     prop = ("C17", "C01", "C14")
     top_level = True
-    cases = tuple((c[0], n) for c in CONFIGS for n in (False, True))
-    descr = ("reading a holder returns the stored view of the period whatever the storage setting (memory first, then disk), "
-             "None if nothing is stored; a neutralised variable reads as its default whatever is stored")
+    cases = tuple((c[0], n) for c in CONFIGS for n in (False, True)) + tuple((c[0], "not-to-be-cached") for c in CONFIGS)
+    descr = ("reading a holder returns the stored view of the period whatever the storage setting (memory first, then disk) and "
+             "whatever the caching options (blacklisted variable, opted-out simulation, do-not-store), None if nothing is stored; "
+             "a neutralised variable reads as its default whatever is stored")
     inline = HOLDER_INLINE
 
     def setup(self, I, ctx, case):
         cfg, neut = case
         _, disk, eternal = [c for c in CONFIGS if c[0] == cfg][0]
-        w = HWorld(I, ctx, disk=disk, eternal=eternal, neutralized=neut)
+        nocache = neut == "not-to-be-cached"
+        w = HWorld(I, ctx, disk=disk, eternal=eternal, neutralized=(neut is True), do_not_store=nocache, blacklist=nocache, opt_out=nocache)
         return {"self": w.holder, "period": sym_period(I, ctx, "month"), "__w": w}
 
     @staticmethod
